@@ -77,6 +77,21 @@ def C04Holds (t : Tables) (w : Wrapper) (tol : Match.Tol) : Prop :=
         ∃ c, (decodeP t w { last := none, tol := tol } (li' ++ sy' ++ [mo', g'])).result = .ok c ∧
           ∀ ep ∈ t.encodeParams, c.get (Props.C01.viewKey ep.1) = some (u ep.1).toNat
 
+def C04BHolds (t : Tables) (w : Wrapper) (tol : Match.Tol) : Prop :=
+  ∀ (u : String → Int), (∀ n, 0 ≤ u n) → (∀ ep ∈ t.encodeParams, u ep.1 ≤ ep.2.2) →
+    ∃ x idx' j, t.leadOut = [x] ∧ firstFrame t w u = .ok (IRModel.Engine.frameB t x idx' j) ∧
+      (x > 0 → ∀ (li' sy' : List Int) (m' g' : Int),
+        IRModel.Engine.Pw (IRModel.Engine.Q tol) li' t.leadIn →
+        IRModel.Engine.Pw (IRModel.Engine.Q tol) sy' (IRModel.Engine.symTimings t.bursts idx') →
+        (∀ q, t.bursts[j]? = some q → IRModel.Engine.Q tol m' q.1) →
+        g' = Py.sumAbs (li' ++ sy' ++ [m']) - x → g' < 0 →
+        ∃ c, (decodeP t w { last := none, tol := tol } (li' ++ sy' ++ [m', g'])).result = .ok c ∧
+          ∀ ep ∈ t.encodeParams, c.get (Props.C01.viewKey ep.1) = some (u ep.1).toNat)
+
+theorem C04B_holds (t : Tables) (w : Wrapper) (tol : Match.Tol) (htol : tol.ok) (hw : wfAllB t tol = true)
+    (hwt : IRModel.Engine.wfTol t tol = true) (hok : c01OK t w = true) : C04BHolds t w tol :=
+  fun u hu hr => C04_wrapperB t w tol htol hw hwt hok u hu hr
+
 /-- the engine hypothesis from either class's obligation -/
 inductive EngineObl (t : Tables) (tol : Match.Tol) : Prop
   | A (h : wfAll t tol = true)
